@@ -12,6 +12,7 @@ use crate::refmodel::pillar::*;
 use crate::refmodel::terms::*;
 use tyme4rs::tyme::lunar::{LunarMonth, LunarYear};
 use tyme4rs::tyme::sixtycycle::{SixtyCycleMonth, SixtyCycleYear};
+use tyme4rs::tyme::Tyme;
 
 /// branch on which 青龙 (first of the twelve Yellow/Black-path spirits) falls, by month branch (days) / day branch (hours):
 /// 寅申 -> 子, 卯酉 -> 寅, 辰戌 -> 辰, 巳亥 -> 午, 子午 -> 申, 丑未 -> 戌
@@ -282,6 +283,17 @@ fn check_year(ctx: &Ctx, y: isize, loc: &mut Local) {
           }
         }
         Err(m) => ctx.violation("month_nine_star", format!("{:05}/{:02}", y, k), format!("panics: {}", m), vec!["year".into(), y.to_string()]),
+      }
+      // the same month reached by stepping from its neighbours (one month later / earlier, one year earlier)
+      if y >= 1 && y <= 9997 {
+        for n in [-1i64, 1, 12] {
+          loc.transitions += 1;
+          let src = 12 * y as i64 + k - n;
+          let r = guard(|| SixtyCycleMonth::from_index(src.div_euclid(12) as isize, src.rem_euclid(12) as isize).next(n as isize).get_nine_star().get_index() as i64);
+          if r != Ok(want) {
+            ctx.violation("month_nine_star", format!("{:05}/{:02} via next({:+})", y, k, n), format!("month {}/{} stepped by {} has star index {:?}, model {} for month {}/{}", src.div_euclid(12), src.rem_euclid(12), n, r, want, y, k), vec!["year".into(), y.to_string()]);
+          }
+        }
       }
     }
   }
